@@ -104,6 +104,18 @@ func c29appeared(seed vconfig.VRFValue, table []uint32) int {
 	return len(m)
 }
 
+func c29same(a, b []uint32) bool {
+	if len(a) != len(b) {
+		return false
+	}
+	for i := range a {
+		if a[i] != b[i] {
+			return false
+		}
+	}
+	return true
+}
+
 func c29rel(appeared int, c uint32) string {
 	switch {
 	case appeared < int(3*c):
@@ -135,18 +147,31 @@ func c29check(r *vh.Run, chain *vconfig.ChainConfig, seed vconfig.VRFValue, sour
 		}
 		r.Violationf(key, mk(), "N=%d C=%d appeared=%d proposers=%v endorsers=%v committers=%v: %s", chain.N, chain.C, ap, p1, e1, c1, fmt.Sprintf(f, a...))
 	}
+	heldChanged, heldNow := false, ""
 	pan := vh.Catch(func() {
 		cfg := &BlockParticipantConfig{BlockNum: 1, Vrf: seed, ChainConfig: chain}
 		a, b, c := calcParticipantPeers(cfg, chain)
 		// copy out: the returned slices alias one backing array
 		p1, e1, c1 = append([]uint32{}, a...), append([]uint32{}, b...), append([]uint32{}, c...)
 		cfg2 := &BlockParticipantConfig{BlockNum: 1, Vrf: seed, ChainConfig: chain}
-		a, b, c = calcParticipantPeers(cfg2, chain)
-		p2, e2, c2 = append([]uint32{}, a...), append([]uint32{}, b...), append([]uint32{}, c...)
+		a2, b2, c2r := calcParticipantPeers(cfg2, chain)
+		p2, e2, c2 = append([]uint32{}, a2...), append([]uint32{}, b2...), append([]uint32{}, c2r...)
+		// the node keeps the participant sets of round k installed while it computes those of round k+1 (other
+		// seed): the sets handed out for round k must still be what they were
+		seed3 := seed
+		for i := range seed3 {
+			seed3[i] ^= 0xA5
+		}
+		calcParticipantPeers(&BlockParticipantConfig{BlockNum: 2, Vrf: seed3, ChainConfig: chain}, chain)
+		heldChanged = !c29same(a, p1) || !c29same(b, e1) || !c29same(c, c1)
+		heldNow = fmt.Sprintf("proposers=%v endorsers=%v committers=%v", a, b, c)
 	})
 	if pan != "" {
 		bad("panic", "panic: %s", pan)
 		return 0, 0, false
+	}
+	if heldChanged {
+		bad("held-result-changed-by-next-selection", "the sets returned for one round read %s after the selection of the next round (another seed) was computed", heldNow)
 	}
 	ok = true
 	C := int(chain.C)
@@ -622,7 +647,7 @@ func c29partC(r *vh.Run, item *int) {
 func TestVerif_C29(t *testing.T) {
 	r := vh.Start(t, "C29", "participants")
 	defer r.Finish()
-	r.Rule("real calcParticipantPeers/calcParticipant/getParticipantSelectionSeed. (A) for N in 4..8 (thorough: ..10, incl. N>5C+4) and every C with N>=3C+1: every order of first appearance of every non-empty subset of peers, realised by crafted position tables (32 slots; 600 slots to pass the 512-draw limit) under 3 fixed seeds, with chain.Peers ascending and descending when the fill loop runs; (B) every de-duplicated position table that the real GenesisChainConfig derives from stake multisets over {0,1,2,10^4,10^4+1,2^60} for (K,L,C) in {(4,8,1),(4,16,1),(5,10,1),(7,14,2),(7,14,1),(8,16,2)} x every seed prefix that such a table can read (all 2^16 two-byte prefixes; third byte from a 2-symbol (quick) / 16-symbol (thorough) alphabet; tables of <=8 slots read two bytes only, so they get all readable seed bits; thorough also runs all 2^24 three-byte prefixes on 8 evenly spaced tables with >8 slots); (C) K=7,L=112|560 tables from 5 stake profiles x seeds from the real seed function over chained blocks x 4 proposers, plus 198 structured seeds. Oracle per call: C+1 distinct proposers, >=2C+1 distinct endorsers, >=2C+1 distinct committers, all members, two calls (and a call on fresh copies) equal. classes = (part, N, C, peers appeared, distinct endorsers, distinct committers)")
+	r.Rule("real calcParticipantPeers/calcParticipant/getParticipantSelectionSeed. (A) for N in 4..8 (thorough: ..10, incl. N>5C+4) and every C with N>=3C+1: every order of first appearance of every non-empty subset of peers, realised by crafted position tables (32 slots; 600 slots to pass the 512-draw limit) under 3 fixed seeds, with chain.Peers ascending and descending when the fill loop runs; (B) every de-duplicated position table that the real GenesisChainConfig derives from stake multisets over {0,1,2,10^4,10^4+1,2^60} for (K,L,C) in {(4,8,1),(4,16,1),(5,10,1),(7,14,2),(7,14,1),(8,16,2)} x every seed prefix that such a table can read (all 2^16 two-byte prefixes; third byte from a 2-symbol (quick) / 16-symbol (thorough) alphabet; tables of <=8 slots read two bytes only, so they get all readable seed bits; thorough also runs all 2^24 three-byte prefixes on 8 evenly spaced tables with >8 slots); (C) K=7,L=112|560 tables from 5 stake profiles x seeds from the real seed function over chained blocks x 4 proposers, plus 198 structured seeds. Oracle per call: C+1 distinct proposers, >=2C+1 distinct endorsers, >=2C+1 distinct committers, all members, two calls (and a call on fresh copies) equal, and the sets returned for one round unchanged after the next round (another seed) was computed. classes = (part, N, C, peers appeared, distinct endorsers, distinct committers)")
 	r.Bound(fmt.Sprintf("N<=%d; tables<=16 slots; L=112/560 with %d chained seeds per (table, proposer)", r.Pick(8, 10), r.Pick(1<<11, 1<<14)))
 	r.Assume("valid configuration: C>=1, N=len(Peers)>=3C+1, distinct peer indexes, every PosTable entry is a member")
 
